@@ -516,6 +516,8 @@ impl Model {
                         }
                         row.wrapped = false;
                     }
+                    #[allow(unreachable_patterns)]
+                    _ => {}
                 }
             }
             Ed(scope) => {
@@ -551,6 +553,8 @@ impl Model {
                     EdScope::SavedLines => {
                         self.tolerate.push("above");
                     }
+                    #[allow(unreachable_patterns)]
+                    _ => {}
                 }
             }
             Decaln => {
@@ -584,6 +588,8 @@ impl Model {
                         ResetForegroundColor => self.pen.fg = None,
                         SetBackgroundColor(c) => self.pen.bg = Some(conv_color(*c)),
                         ResetBackgroundColor => self.pen.bg = None,
+                        #[allow(unreachable_patterns)]
+                        _ => {}
                     }
                 }
             }
@@ -610,6 +616,8 @@ impl Model {
                     match m {
                         AnsiMode::Insert => self.insert = true,
                         AnsiMode::NewLine => self.lnm = true,
+                        #[allow(unreachable_patterns)]
+                        _ => {}
                     }
                 }
             }
@@ -618,6 +626,8 @@ impl Model {
                     match m {
                         AnsiMode::Insert => self.insert = false,
                         AnsiMode::NewLine => self.lnm = false,
+                        #[allow(unreachable_patterns)]
+                        _ => {}
                     }
                 }
             }
@@ -639,6 +649,8 @@ impl Model {
                             self.save();
                             self.enter_alt();
                         }
+                        #[allow(unreachable_patterns)]
+                        _ => {}
                     }
                 }
             }
@@ -667,6 +679,8 @@ impl Model {
                                 predictable = false;
                             }
                         }
+                        #[allow(unreachable_patterns)]
+                        _ => {}
                     }
                 }
             }
@@ -686,6 +700,9 @@ impl Model {
                 *self = Model::new(c, r, g);
             }
             Xtwinops(_) => {}
+            // a function this harness does not know (the library was extended): nothing to model
+            #[allow(unreachable_patterns)]
+            _ => {}
         }
         predictable
     }
